@@ -11,6 +11,43 @@ fn arr(v: &Value) -> &Vec<Value> {
 fn u(v: &Value) -> u64 {
     v.as_u64().expect("u64")
 }
+
+// ---------- order-preserving relabelling of variable ids ("lift") ----------
+// The judge works with ids below 2^31.  An event that carries "lift": "A"|"B"|"C"|"D" is executed with every variable
+// id x replaced by a 64-bit id (strictly monotone in x, so sorted output stays sorted) and its observations are
+// mapped back before they are logged.  An id the code under test returns that is not the image of any id is logged
+// as NOT_AN_IMAGE, an id no vector uses, so the judge rejects it.
+thread_local! { static LIFT: std::cell::Cell<u8> = const { std::cell::Cell::new(0) }; }
+pub const NOT_AN_IMAGE: u64 = 999_983;
+pub fn set_lift(mode: Option<&str>) {
+    LIFT.with(|l| l.set(match mode { Some("A") => 1, Some("B") => 2, Some("C") => 3, Some("D") => 4, _ => 0 }));
+}
+pub fn up(x: u64) -> u64 {
+    match LIFT.with(|l| l.get()) {
+        0 => x,
+        _ if x >= (1 << 32) => panic!("lift: id {x} too large"),
+        1 => x << 32,                                  // low word zero: truncation to 32 bits collapses all ids
+        2 => (x << 32) | 0xFFFF_FFFF,                  // low word all ones
+        3 => u64::MAX - 0xFFFF_FFFF + x,               // top of the u64 range (2^32-1 |-> u64::MAX)
+        _ => if x < 2 { x } else { u64::MAX - 0xFFFF_FFFF + x }, // mixed: ids 0 and 1 stay, the others go above 2^63
+    }
+}
+pub fn down(y: u64) -> u64 {
+    match LIFT.with(|l| l.get()) {
+        0 => y,
+        1 => if y & 0xFFFF_FFFF == 0 { y >> 32 } else { NOT_AN_IMAGE },
+        2 => if y & 0xFFFF_FFFF == 0xFFFF_FFFF { y >> 32 } else { NOT_AN_IMAGE },
+        3 => if y >= u64::MAX - 0xFFFF_FFFF { y - (u64::MAX - 0xFFFF_FFFF) } else { NOT_AN_IMAGE },
+        _ => if y < 2 { y } else if y >= u64::MAX - 0xFFFF_FFFF + 2 { y - (u64::MAX - 0xFFFF_FFFF) } else { NOT_AN_IMAGE },
+    }
+}
+/// a variable (or parameter) id read from a vector
+pub fn vid(v: &Value) -> u64 {
+    up(u(v))
+}
+pub fn vids_to<'a>(it: impl IntoIterator<Item = &'a u64>) -> Vec<u64> {
+    it.into_iter().map(|x| down(*x)).collect()
+}
 pub fn opt<'a>(v: &'a Value) -> Option<&'a Value> {
     arr(v).first()
 }
@@ -32,7 +69,7 @@ pub fn linear_from(v: &Value) -> v1::Linear {
     let mut l = v1::Linear::default();
     for t in arr(&v["terms"]) {
         let mut term = v1::linear::Term::default();
-        term.id = u(&t["id"]);
+        term.id = vid(&t["id"]);
         term.coefficient = to_f64(&t["c"]);
         l.terms.push(term);
     }
@@ -41,8 +78,8 @@ pub fn linear_from(v: &Value) -> v1::Linear {
 }
 pub fn quadratic_from(v: &Value) -> v1::Quadratic {
     let mut q = v1::Quadratic::default();
-    q.rows = arr(&v["rows"]).iter().map(u).collect();
-    q.columns = arr(&v["columns"]).iter().map(u).collect();
+    q.rows = arr(&v["rows"]).iter().map(vid).collect();
+    q.columns = arr(&v["columns"]).iter().map(vid).collect();
     q.values = arr(&v["values"]).iter().map(to_f64).collect();
     q.linear = opt(&v["linear"]).map(linear_from);
     q
@@ -51,7 +88,7 @@ pub fn polynomial_from(v: &Value) -> v1::Polynomial {
     let mut p = v1::Polynomial::default();
     for t in arr(&v["terms"]) {
         let mut m = v1::Monomial::default();
-        m.ids = arr(&t["ids"]).iter().map(u).collect();
+        m.ids = arr(&t["ids"]).iter().map(vid).collect();
         m.coefficient = to_f64(&t["c"]);
         p.terms.push(m);
     }
@@ -71,17 +108,17 @@ pub fn function_from(v: &Value) -> v1::Function {
 }
 pub fn linear_to(l: &v1::Linear) -> Value {
     json!({"kind":"linear",
-        "terms": l.terms.iter().map(|t| json!({"id": t.id, "c": from_f64(t.coefficient)})).collect::<Vec<_>>(),
+        "terms": l.terms.iter().map(|t| json!({"id": down(t.id), "c": from_f64(t.coefficient)})).collect::<Vec<_>>(),
         "constant": from_f64(l.constant)})
 }
 pub fn quadratic_to(q: &v1::Quadratic) -> Value {
-    json!({"kind":"quadratic", "rows": q.rows, "columns": q.columns,
+    json!({"kind":"quadratic", "rows": vids_to(&q.rows), "columns": vids_to(&q.columns),
         "values": q.values.iter().map(|x| from_f64(*x)).collect::<Vec<_>>(),
         "linear": optv(&q.linear, linear_to)})
 }
 pub fn polynomial_to(p: &v1::Polynomial) -> Value {
     json!({"kind":"polynomial",
-        "terms": p.terms.iter().map(|m| json!({"ids": m.ids, "c": from_f64(m.coefficient)})).collect::<Vec<_>>()})
+        "terms": p.terms.iter().map(|m| json!({"ids": vids_to(&m.ids), "c": from_f64(m.coefficient)})).collect::<Vec<_>>()})
 }
 pub fn function_to(f: &v1::Function) -> Value {
     match &f.function {
@@ -99,7 +136,7 @@ pub fn function_to(f: &v1::Function) -> Value {
 pub fn state_from(v: &Value) -> v1::State {
     let mut s = v1::State::default();
     for e in arr(v) {
-        s.entries.insert(u(&e[0]), to_f64(&e[1]));
+        s.entries.insert(vid(&e[0]), to_f64(&e[1]));
     }
     s
 }
@@ -225,7 +262,7 @@ pub fn removed_to(r: &v1::RemovedConstraint) -> Value {
         "rparams": strmap_to(&r.removed_reason_parameters)})
 }
 pub fn deps_from(v: &Value) -> HashMap<u64, v1::Function> {
-    arr(v).iter().map(|e| (u(&e[0]), function_from(&e[1]))).collect()
+    arr(v).iter().map(|e| (vid(&e[0]), function_from(&e[1]))).collect()
 }
 pub fn deps_to(m: &HashMap<u64, v1::Function>) -> Value {
     let mut es: Vec<_> = m.iter().collect();
